@@ -27,10 +27,10 @@ theorem Post_bind_true {α β} {x : VMM α} {f : α → VMM β} {P : β → Prop
   Post_bind (Post_true x) (fun a _ => hf a)
 
 section
-variable (code : Code) (f : Fn) (fr : Frame) (ip : Int) (op : Nat) (r : Regs)
+variable (code : Code) (fr : Frame) (a0 a1 : Nat) (op : Nat) (r : Regs)
 
-theorem exConstant_spec (h : (code.consts[op16 f ip]?).isSome) :
-    SafeX (exConstant code f fr ip op r) (fun o => Eff r 0 1 o ∧ o.ip = ip + 2) := by
+theorem exConstant_spec (h : (code.consts[a0]?).isSome) :
+    SafeX (exConstant code fr a0 a1 op r) (fun o => Eff r 0 1 o ∧ o.next = .seq) := by
   unfold exConstant
   try dsimp only
   safe_walk
@@ -38,118 +38,118 @@ theorem exConstant_spec (h : (code.consts[op16 f ip]?).isSome) :
   · eff_leaf
   · rename_i hn; rw [hn] at h; cases h
 
-theorem exNull_spec : SafeX (exNull code f fr ip op r) (fun o => Eff r 0 1 o ∧ o.ip = ip) := by
+theorem exNull_spec : SafeX (exNull code fr a0 a1 op r) (fun o => Eff r 0 1 o ∧ o.next = .seq) := by
   unfold exNull; (try dsimp only); safe_walk; eff_leaf
-theorem exTrue_spec : SafeX (exTrue code f fr ip op r) (fun o => Eff r 0 1 o ∧ o.ip = ip) := by
+theorem exTrue_spec : SafeX (exTrue code fr a0 a1 op r) (fun o => Eff r 0 1 o ∧ o.next = .seq) := by
   unfold exTrue; (try dsimp only); safe_walk; eff_leaf
-theorem exFalse_spec : SafeX (exFalse code f fr ip op r) (fun o => Eff r 0 1 o ∧ o.ip = ip) := by
+theorem exFalse_spec : SafeX (exFalse code fr a0 a1 op r) (fun o => Eff r 0 1 o ∧ o.next = .seq) := by
   unfold exFalse; (try dsimp only); safe_walk; eff_leaf
-theorem exPop_spec (h : 1 ≤ r.sp) : SafeX (exPop code f fr ip op r) (fun o => Eff r 1 0 o ∧ o.ip = ip) := by
+theorem exPop_spec (h : 1 ≤ r.sp) : SafeX (exPop code fr a0 a1 op r) (fun o => Eff r 1 0 o ∧ o.next = .seq) := by
   unfold exPop; (try dsimp only); safe_walk; eff_leaf
 theorem exBinaryOp_spec (h : 2 ≤ r.sp) :
-    SafeX (exBinaryOp code f fr ip op r) (fun o => Eff r 2 1 o ∧ o.ip = ip + 1) := by
+    SafeX (exBinaryOp code fr a0 a1 op r) (fun o => Eff r 2 1 o ∧ o.next = .seq) := by
   unfold exBinaryOp; (try dsimp only); safe_walk; eff_leaf
-theorem exEqual_spec (h : 2 ≤ r.sp) : SafeX (exEqual code f fr ip op r) (fun o => Eff r 2 1 o ∧ o.ip = ip) := by
+theorem exEqual_spec (h : 2 ≤ r.sp) : SafeX (exEqual code fr a0 a1 op r) (fun o => Eff r 2 1 o ∧ o.next = .seq) := by
   unfold exEqual; (try dsimp only); safe_walk; eff_leaf
-theorem exLNot_spec (h : 1 ≤ r.sp) : SafeX (exLNot code f fr ip op r) (fun o => Eff r 1 1 o ∧ o.ip = ip) := by
+theorem exLNot_spec (h : 1 ≤ r.sp) : SafeX (exLNot code fr a0 a1 op r) (fun o => Eff r 1 1 o ∧ o.next = .seq) := by
   unfold exLNot; (try dsimp only); safe_walk; eff_leaf
 theorem exBComplement_spec (h : 1 ≤ r.sp) :
-    SafeX (exBComplement code f fr ip op r) (fun o => Eff r 1 1 o ∧ o.ip = ip) := by
+    SafeX (exBComplement code fr a0 a1 op r) (fun o => Eff r 1 1 o ∧ o.next = .seq) := by
   unfold exBComplement; (try dsimp only); safe_walk; all_goals eff_leaf
-theorem exMinus_spec (h : 1 ≤ r.sp) : SafeX (exMinus code f fr ip op r) (fun o => Eff r 1 1 o ∧ o.ip = ip) := by
+theorem exMinus_spec (h : 1 ≤ r.sp) : SafeX (exMinus code fr a0 a1 op r) (fun o => Eff r 1 1 o ∧ o.next = .seq) := by
   unfold exMinus; (try dsimp only); safe_walk; all_goals eff_leaf
 
 
 theorem exJumpFalsy_spec (h : 1 ≤ r.sp) :
-    SafeX (exJumpFalsy code f fr ip op r) (fun o => Eff r 1 0 o ∧ (o.ip = Int.ofNat (op32 f ip) - 1 ∨ o.ip = ip + 4)) := by
+    SafeX (exJumpFalsy code fr a0 a1 op r) (fun o => Eff r 1 0 o ∧ (o.next = .jump a0 ∨ o.next = .seq)) := by
   unfold exJumpFalsy; (try dsimp only); safe_walk
   all_goals (apply SafeX_pure; refine ⟨⟨?_, rfl, rfl⟩, ?_⟩ <;> dsimp only <;> first | omega | simp)
 
 theorem exAndJump_spec (h : 1 ≤ r.sp) :
-    SafeX (exAndJump code f fr ip op r) (fun o =>
-      (Eff r 0 0 o ∧ o.ip = Int.ofNat (op32 f ip) - 1) ∨ (Eff r 1 0 o ∧ o.ip = ip + 4)) := by
+    SafeX (exAndJump code fr a0 a1 op r) (fun o =>
+      (Eff r 0 0 o ∧ o.next = .jump a0) ∨ (Eff r 1 0 o ∧ o.next = .seq)) := by
   unfold exAndJump; (try dsimp only); safe_walk
   · apply SafeX_pure; left; exact ⟨⟨rfl, rfl, rfl⟩, rfl⟩
   · apply SafeX_pure; right; refine ⟨⟨?_, rfl, rfl⟩, rfl⟩; dsimp only; omega
 
 theorem exOrJump_spec (h : 1 ≤ r.sp) :
-    SafeX (exOrJump code f fr ip op r) (fun o =>
-      (Eff r 0 0 o ∧ o.ip = Int.ofNat (op32 f ip) - 1) ∨ (Eff r 1 0 o ∧ o.ip = ip + 4)) := by
+    SafeX (exOrJump code fr a0 a1 op r) (fun o =>
+      (Eff r 0 0 o ∧ o.next = .jump a0) ∨ (Eff r 1 0 o ∧ o.next = .seq)) := by
   unfold exOrJump; (try dsimp only); safe_walk
   · apply SafeX_pure; right; refine ⟨⟨?_, rfl, rfl⟩, rfl⟩; dsimp only; omega
   · apply SafeX_pure; left; exact ⟨⟨rfl, rfl, rfl⟩, rfl⟩
 
-theorem exJump_spec : SafeX (exJump code f fr ip op r) (fun o => Eff r 0 0 o ∧ o.ip = Int.ofNat (op32 f ip) - 1) := by
+theorem exJump_spec : SafeX (exJump code fr a0 a1 op r) (fun o => Eff r 0 0 o ∧ o.next = .jump a0) := by
   unfold exJump
   exact SafeX_pure ⟨⟨rfl, rfl, rfl⟩, rfl⟩
 
-theorem exSetGlobal_spec (h : 1 ≤ r.sp) (hg : op16 f ip < r.globals.size) :
-    SafeX (exSetGlobal code f fr ip op r) (fun o => Eff r 1 0 o ∧ o.ip = ip + 2) := by
+theorem exSetGlobal_spec (h : 1 ≤ r.sp) (hg : a0 < r.globals.size) :
+    SafeX (exSetGlobal code fr a0 a1 op r) (fun o => Eff r 1 0 o ∧ o.next = .seq) := by
   unfold exSetGlobal; (try dsimp only); safe_walk
   · eff_leaf
   · omega
 
-theorem exGetGlobal_spec (hg : op16 f ip < r.globals.size) :
-    SafeX (exGetGlobal code f fr ip op r) (fun o => Eff r 0 1 o ∧ o.ip = ip + 2) := by
+theorem exGetGlobal_spec (hg : a0 < r.globals.size) :
+    SafeX (exGetGlobal code fr a0 a1 op r) (fun o => Eff r 0 1 o ∧ o.next = .seq) := by
   unfold exGetGlobal; (try dsimp only); safe_walk
   · eff_leaf
   · omega
 
-theorem exSetSelGlobal_spec (h : byteAt f (ip + 3) + 1 ≤ r.sp) (hg : op16 f ip < r.globals.size) :
-    SafeX (exSetSelGlobal code f fr ip op r) (fun o => Eff r (byteAt f (ip + 3) + 1) 0 o ∧ o.ip = ip + 3) := by
+theorem exSetSelGlobal_spec (h : a1 + 1 ≤ r.sp) (hg : a0 < r.globals.size) :
+    SafeX (exSetSelGlobal code fr a0 a1 op r) (fun o => Eff r (a1 + 1) 0 o ∧ o.next = .seq) := by
   unfold exSetSelGlobal; (try dsimp only); safe_walk
   · eff_leaf
   · omega
 
-theorem exArray_spec (h : op16 f ip ≤ r.sp) :
-    SafeX (exArray code f fr ip op r) (fun o => Eff r (op16 f ip) 1 o ∧ o.ip = ip + 2) := by
+theorem exArray_spec (h : a0 ≤ r.sp) :
+    SafeX (exArray code fr a0 a1 op r) (fun o => Eff r (a0) 1 o ∧ o.next = .seq) := by
   unfold exArray; (try dsimp only); safe_walk; eff_leaf
 
-theorem exMap_spec (h : op16 f ip ≤ r.sp) :
-    SafeX (exMap code f fr ip op r) (fun o => Eff r (op16 f ip) 1 o ∧ o.ip = ip + 2) := by
+theorem exMap_spec (h : a0 ≤ r.sp) :
+    SafeX (exMap code fr a0 a1 op r) (fun o => Eff r (a0) 1 o ∧ o.next = .seq) := by
   unfold exMap; (try dsimp only); safe_walk; eff_leaf
 
-theorem exError_spec (h : 1 ≤ r.sp) : SafeX (exError code f fr ip op r) (fun o => Eff r 1 1 o ∧ o.ip = ip) := by
+theorem exError_spec (h : 1 ≤ r.sp) : SafeX (exError code fr a0 a1 op r) (fun o => Eff r 1 1 o ∧ o.next = .seq) := by
   unfold exError; (try dsimp only); safe_walk; eff_leaf
 
-theorem exImmutable_spec (h : 1 ≤ r.sp) : SafeX (exImmutable code f fr ip op r) (fun o => Eff r 1 1 o ∧ o.ip = ip) := by
+theorem exImmutable_spec (h : 1 ≤ r.sp) : SafeX (exImmutable code fr a0 a1 op r) (fun o => Eff r 1 1 o ∧ o.next = .seq) := by
   unfold exImmutable; (try dsimp only); safe_walk; all_goals eff_leaf
 
-theorem exIndex_spec (h : 2 ≤ r.sp) : SafeX (exIndex code f fr ip op r) (fun o => Eff r 2 1 o ∧ o.ip = ip) := by
+theorem exIndex_spec (h : 2 ≤ r.sp) : SafeX (exIndex code fr a0 a1 op r) (fun o => Eff r 2 1 o ∧ o.next = .seq) := by
   unfold exIndex; (try dsimp only); safe_walk; eff_leaf
 
-theorem exSliceIndex_spec (h : 3 ≤ r.sp) : SafeX (exSliceIndex code f fr ip op r) (fun o => Eff r 3 1 o ∧ o.ip = ip) := by
+theorem exSliceIndex_spec (h : 3 ≤ r.sp) : SafeX (exSliceIndex code fr a0 a1 op r) (fun o => Eff r 3 1 o ∧ o.next = .seq) := by
   unfold exSliceIndex; (try dsimp only); safe_walk; eff_leaf
 
 theorem exDefineLocal_spec (h : 1 ≤ r.sp) :
-    SafeX (exDefineLocal code f fr ip op r) (fun o => Eff r 1 0 o ∧ o.ip = ip + 1) := by
+    SafeX (exDefineLocal code fr a0 a1 op r) (fun o => Eff r 1 0 o ∧ o.next = .seq) := by
   unfold exDefineLocal; (try dsimp only); safe_walk; eff_leaf
 
 theorem exSetLocal_spec (h : 1 ≤ r.sp) :
-    SafeX (exSetLocal code f fr ip op r) (fun o => Eff r 1 0 o ∧ o.ip = ip + 1) := by
+    SafeX (exSetLocal code fr a0 a1 op r) (fun o => Eff r 1 0 o ∧ o.next = .seq) := by
   unfold exSetLocal; (try dsimp only); safe_walk; all_goals eff_leaf
 
-theorem exSetSelLocal_spec (h : byteAt f (ip + 2) + 1 ≤ r.sp) :
-    SafeX (exSetSelLocal code f fr ip op r) (fun o => Eff r (byteAt f (ip + 2) + 1) 0 o ∧ o.ip = ip + 2) := by
+theorem exSetSelLocal_spec (h : a1 + 1 ≤ r.sp) :
+    SafeX (exSetSelLocal code fr a0 a1 op r) (fun o => Eff r (a1 + 1) 0 o ∧ o.next = .seq) := by
   unfold exSetSelLocal; (try dsimp only); safe_walk; eff_leaf
 
-theorem exGetLocal_spec : SafeX (exGetLocal code f fr ip op r) (fun o => Eff r 0 1 o ∧ o.ip = ip + 1) := by
+theorem exGetLocal_spec : SafeX (exGetLocal code fr a0 a1 op r) (fun o => Eff r 0 1 o ∧ o.next = .seq) := by
   unfold exGetLocal; (try dsimp only); safe_walk; eff_leaf
 
-theorem exGetBuiltin_spec (h : (builtinNames[byteAt f (ip + 1)]?).isSome) :
-    SafeX (exGetBuiltin code f fr ip op r) (fun o => Eff r 0 1 o ∧ o.ip = ip + 1) := by
+theorem exGetBuiltin_spec (h : (builtinNames[a0]?).isSome) :
+    SafeX (exGetBuiltin code fr a0 a1 op r) (fun o => Eff r 0 1 o ∧ o.next = .seq) := by
   unfold exGetBuiltin; (try dsimp only); safe_walk
   · eff_leaf
   · rename_i hn; rw [hn] at h; cases h
 
-theorem exGetFreePtr_spec (h : (fr.free[byteAt f (ip + 1)]?).isSome) :
-    SafeX (exGetFreePtr code f fr ip op r) (fun o => Eff r 0 1 o ∧ o.ip = ip + 1) := by
+theorem exGetFreePtr_spec (h : (fr.free[a0]?).isSome) :
+    SafeX (exGetFreePtr code fr a0 a1 op r) (fun o => Eff r 0 1 o ∧ o.next = .seq) := by
   unfold exGetFreePtr; (try dsimp only); safe_walk
   · eff_leaf
   · rename_i hn; rw [hn] at h; cases h
 
-theorem exGetFree_spec (h : (fr.free[byteAt f (ip + 1)]?).isSome) :
-    SafeX (exGetFree code f fr ip op r) (fun o => Eff r 0 1 o ∧ o.ip = ip + 1) := by
+theorem exGetFree_spec (h : (fr.free[a0]?).isSome) :
+    SafeX (exGetFree code fr a0 a1 op r) (fun o => Eff r 0 1 o ∧ o.next = .seq) := by
   unfold exGetFree; (try dsimp only)
   split
   · refine SafeX_bind (SafeX_em (Post_bind_true (fun _ => push_spec _ _))) ?_
@@ -157,27 +157,27 @@ theorem exGetFree_spec (h : (fr.free[byteAt f (ip + 1)]?).isSome) :
     eff_leaf
   · rename_i hn; rw [hn] at h; cases h
 
-theorem exSetFree_spec (h1 : 1 ≤ r.sp) (h : (fr.free[byteAt f (ip + 1)]?).isSome) :
-    SafeX (exSetFree code f fr ip op r) (fun o => Eff r 1 0 o ∧ o.ip = ip + 1) := by
+theorem exSetFree_spec (h1 : 1 ≤ r.sp) (h : (fr.free[a0]?).isSome) :
+    SafeX (exSetFree code fr a0 a1 op r) (fun o => Eff r 1 0 o ∧ o.next = .seq) := by
   unfold exSetFree; (try dsimp only); safe_walk
   · eff_leaf
   · rename_i hn; rw [hn] at h; cases h
 
-theorem exGetLocalPtr_spec : SafeX (exGetLocalPtr code f fr ip op r) (fun o => Eff r 0 1 o ∧ o.ip = ip + 1) := by
+theorem exGetLocalPtr_spec : SafeX (exGetLocalPtr code fr a0 a1 op r) (fun o => Eff r 0 1 o ∧ o.next = .seq) := by
   unfold exGetLocalPtr; (try dsimp only); safe_walk; all_goals eff_leaf
 
-theorem exSetSelFree_spec (h1 : byteAt f (ip + 2) + 1 ≤ r.sp) (h : (fr.free[byteAt f (ip + 1)]?).isSome) :
-    SafeX (exSetSelFree code f fr ip op r) (fun o => Eff r (byteAt f (ip + 2) + 1) 0 o ∧ o.ip = ip + 2) := by
+theorem exSetSelFree_spec (h1 : a1 + 1 ≤ r.sp) (h : (fr.free[a0]?).isSome) :
+    SafeX (exSetSelFree code fr a0 a1 op r) (fun o => Eff r (a1 + 1) 0 o ∧ o.next = .seq) := by
   unfold exSetSelFree; (try dsimp only); safe_walk
   · eff_leaf
   · rename_i hn; rw [hn] at h; cases h
 
 theorem exIteratorInit_spec (h : 1 ≤ r.sp) :
-    SafeX (exIteratorInit code f fr ip op r) (fun o => Eff r 1 1 o ∧ o.ip = ip) := by
+    SafeX (exIteratorInit code fr a0 a1 op r) (fun o => Eff r 1 1 o ∧ o.next = .seq) := by
   unfold exIteratorInit; (try dsimp only); safe_walk; all_goals eff_leaf
 
 theorem exIteratorNext_spec (h : 1 ≤ r.sp) :
-    SafeX (exIteratorNext code f fr ip op r) (fun o => Eff r 1 1 o ∧ o.ip = ip) := by
+    SafeX (exIteratorNext code fr a0 a1 op r) (fun o => Eff r 1 1 o ∧ o.next = .seq) := by
   unfold exIteratorNext; (try dsimp only)
   refine SafeX_bind (SafeX_need (by omega)) ?_; intro _ _
   split
@@ -187,7 +187,7 @@ theorem exIteratorNext_spec (h : 1 ≤ r.sp) :
   · exact SafeX_panicE _
 
 theorem exIteratorKey_spec (h : 1 ≤ r.sp) :
-    SafeX (exIteratorKey code f fr ip op r) (fun o => Eff r 1 1 o ∧ o.ip = ip) := by
+    SafeX (exIteratorKey code fr a0 a1 op r) (fun o => Eff r 1 1 o ∧ o.next = .seq) := by
   unfold exIteratorKey; (try dsimp only)
   refine SafeX_bind (SafeX_need (by omega)) ?_; intro _ _
   split
@@ -206,12 +206,12 @@ theorem mapM_length {α β} (g : α → VMM β) : ∀ xs : List α, Post (xs.map
     intro bs hbs
     exact Post_pure (by simp [hbs])
 
-theorem exClosure_spec (h : byteAt f (ip + 3) ≤ r.sp) (fn : Fn) (ref : Nat)
-    (hk : code.consts[op16 f ip]? = some (.fn fn ref)) :
-    SafeX (exClosure code f fr ip op r) (fun o =>
-      o.regs.sp + byteAt f (ip + 3) = r.sp + 1 ∧ o.regs.globals.size = r.globals.size ∧
-      (∃ free : List Nat, free.length = byteAt f (ip + 3) ∧ o.regs.fobjs = r.fobjs.push (op16 f ip, free)) ∧
-      o.ip = ip + 3) := by
+theorem exClosure_spec (h : a1 ≤ r.sp) (fn : Fn) (ref : Nat)
+    (hk : code.consts[a0]? = some (.fn fn ref)) :
+    SafeX (exClosure code fr a0 a1 op r) (fun o =>
+      o.regs.sp + a1 = r.sp + 1 ∧ o.regs.globals.size = r.globals.size ∧
+      (∃ free : List Nat, free.length = a1 ∧ o.regs.fobjs = r.fobjs.push (a0, free)) ∧
+      o.next = .seq) := by
   unfold exClosure; (try dsimp only)
   refine SafeX_bind (SafeX_need (by omega)) ?_; intro _ _
   rw [hk]
